@@ -215,7 +215,7 @@ theorem step_eraseH (c1 c2 : HtmlCfg) (hc : SameButIndent c1 c2) (s t : HSt) (e 
     simp [step, comment, HSt.core, h1, h2, h3, h4, h5, h6, eraseH_cons, HTok.isIns, Tok.isIns]
   | pi tg d =>
     simp only [step, procInstr]
-    by_cases hl : t.elementLevel = 0 <;>
+    cases hl : (t.elementLevel == 0) <;>
       simp [HSt.core, h1, h2, h3, h4, h5, h6, hl, eraseH_cons, HTok.isIns, Tok.isIns]
 
 theorem runFrom_eraseH (c1 c2 : HtmlCfg) (hc : SameButIndent c1 c2) (evs : List Ev) (s t : HSt) (h : s.core = t.core) :
@@ -274,7 +274,7 @@ theorem step_noIns (c : HtmlCfg) (hd : c.doIndent = false) (s : HSt) (e : Ev) : 
   | comment str => simp [step, comment, hi, eraseH_cons, HTok.isIns, Tok.isIns]
   | pi tg d =>
     simp only [step, procInstr, hi]
-    by_cases hl : s.elementLevel = 0 <;> simp [hl, eraseH_cons, HTok.isIns, Tok.isIns]
+    cases hl : (s.elementLevel == 0) <;> simp [hl, eraseH_cons, HTok.isIns, Tok.isIns]
 
 theorem serializeToks_noIns (c : HtmlCfg) (hd : c.doIndent = false) (evs : List Ev) :
     eraseH (serializeToks c evs) = serializeToks c evs := by
@@ -298,5 +298,106 @@ def hNoAdjFrom : Option Bool → List HTok → Bool
     clsOk p c && hNoAdjFrom c r
 
 def hNoAdj (l : List HTok) : Bool := hNoAdjFrom none l
+
+/-! ### inserted tokens are never adjacent to character data (HTML stream) -/
+
+def hcls : HTok → Option Bool
+  | .t x => x.cls
+  | _ => none
+
+def hLastFrom : Option Bool → List HTok → Option Bool
+  | p, [] => p
+  | _, t :: r => hLastFrom (hcls t) r
+
+theorem hNoAdjFrom_cons (p : Option Bool) (t : HTok) (r : List HTok) :
+    hNoAdjFrom p (t :: r) = (clsOk p (hcls t) && hNoAdjFrom (hcls t) r) := by
+  cases t <;> rfl
+
+theorem hNoAdjFrom_append (p : Option Bool) (a b : List HTok) :
+    hNoAdjFrom p (a ++ b) = (hNoAdjFrom p a && hNoAdjFrom (hLastFrom p a) b) := by
+  induction a generalizing p with
+  | nil => simp [hNoAdjFrom, hLastFrom]
+  | cons t r ih => simp [hNoAdjFrom_cons, hLastFrom, ih, Bool.and_assoc]
+
+theorem hLastFrom_append (p : Option Bool) (a b : List HTok) : hLastFrom p (a ++ b) = hLastFrom (hLastFrom p a) b := by
+  induction a generalizing p with
+  | nil => rfl
+  | cons t r ih => simp [hLastFrom, ih]
+
+/-- what the state guarantees when the last written token carries character data -/
+def HInv (st : HSt) (p : Option Bool) : Prop :=
+  p = some true → st.ispreserve = true ∧ st.isprevtext = true ∧ st.elemStack.head? ≠ some false
+
+/-- the event does not close a void (EMPTY) HTML element that was given children -/
+def okAt (st : HSt) : Ev → Bool
+  | .endElement _ =>
+    !(!(st.hasNamespaceStack.headD false) && st.elemStack.head? == some true &&
+      has (st.propsStack.headD htmlDummyFlags) flagEMPTY)
+  | _ => true
+
+set_option linter.unusedSimpArgs false in
+set_option maxHeartbeats 1000000 in
+theorem step_hNoAdj_simple (cfg : HtmlCfg) (hraw : cfg.rawSetsPrevText = true) (st : HSt) (e : Ev) (p : Option Bool)
+    (he : match e with | .startElement _ _ => False | .endElement _ => False | _ => True)
+    (h : HInv st p) (hp : p ≠ some false) :
+    hNoAdjFrom p (step cfg st e).2 = true ∧ HInv (step cfg st e).1 (hLastFrom p (step cfg st e).2) ∧
+    hLastFrom p (step cfg st e).2 ≠ some false := by
+  obtain ⟨stack, ci, snl, pres, prev, pstack, inb, raws, scripts, first, level, props, nss⟩ := st
+  unfold HInv at h ⊢
+  rcases p with _ | _ | _
+  · cases e <;> simp at he <;> rcases stack with _ | ⟨_ | _, rest⟩ <;> cases snl <;> cases pres <;> cases prev <;>
+      cases hd : cfg.doIndent <;>
+      simp_all [step, characters, charactersRaw, comment, procInstr, writeParentTagEnd, shouldIndent, indentToks,
+        hNoAdjFrom_cons, hNoAdjFrom, hLastFrom, hcls, clsOk, Tok.cls, Tok.isTextual, Tok.isIns] <;>
+      (repeat' split) <;>
+      simp_all [hNoAdjFrom_cons, hNoAdjFrom, hLastFrom, hcls, clsOk, Tok.cls, Tok.isTextual, Tok.isIns]
+  · exact absurd rfl hp
+  · obtain ⟨h1, h2, h3⟩ := h rfl
+    simp only at h1 h2 h3
+    subst h1; subst h2
+    rcases stack with _ | ⟨_ | _, rest⟩
+    · cases e <;> simp at he <;> cases snl <;> cases hd : cfg.doIndent <;>
+        simp_all [step, characters, charactersRaw, comment, procInstr, writeParentTagEnd, shouldIndent, indentToks,
+          hNoAdjFrom_cons, hNoAdjFrom, hLastFrom, hcls, clsOk, Tok.cls, Tok.isTextual, Tok.isIns] <;>
+        (repeat' split) <;>
+        simp_all [hNoAdjFrom_cons, hNoAdjFrom, hLastFrom, hcls, clsOk, Tok.cls, Tok.isTextual, Tok.isIns]
+    · exact absurd rfl h3
+    · cases e <;> simp at he <;> cases snl <;> cases hd : cfg.doIndent <;>
+        simp_all [step, characters, charactersRaw, comment, procInstr, writeParentTagEnd, shouldIndent, indentToks,
+          hNoAdjFrom_cons, hNoAdjFrom, hLastFrom, hcls, clsOk, Tok.cls, Tok.isTextual, Tok.isIns] <;>
+        (repeat' split) <;>
+        simp_all [hNoAdjFrom_cons, hNoAdjFrom, hLastFrom, hcls, clsOk, Tok.cls, Tok.isTextual, Tok.isIns]
+
+set_option linter.unusedSimpArgs false in
+set_option maxHeartbeats 1000000 in
+theorem xml_hNoAdj (cfg : HtmlCfg) (st : HSt) (n : Str) (a : List (Str × Str)) (p : Option Bool)
+    (h : HInv st p) (hp : p ≠ some false) :
+    (hNoAdjFrom p (xmlStartElement cfg st n a).2 = true ∧ HInv (xmlStartElement cfg st n a).1 (hLastFrom p (xmlStartElement cfg st n a).2) ∧
+      hLastFrom p (xmlStartElement cfg st n a).2 ≠ some false) ∧
+    (hNoAdjFrom p (xmlEndElement cfg st n).2 = true ∧ HInv (xmlEndElement cfg st n).1 (hLastFrom p (xmlEndElement cfg st n).2) ∧
+      hLastFrom p (xmlEndElement cfg st n).2 ≠ some false) := by
+  obtain ⟨stack, ci, snl, pres, prev, pstack, inb, raws, scripts, first, level, props, nss⟩ := st
+  unfold HInv at h ⊢
+  rcases p with _ | _ | _
+  · constructor <;> rcases stack with _ | ⟨_ | _, rest⟩ <;> cases snl <;> cases pres <;> cases prev <;>
+      cases hd : cfg.doIndent <;>
+      simp_all [xmlStartElement, xmlEndElement, writeParentTagEnd, shouldIndent, indentToks,
+        hNoAdjFrom_cons, hNoAdjFrom, hLastFrom, hcls, clsOk, Tok.cls, Tok.isTextual, Tok.isIns] <;>
+      (repeat' split) <;>
+      simp_all [hNoAdjFrom_cons, hNoAdjFrom, hLastFrom, hcls, clsOk, Tok.cls, Tok.isTextual, Tok.isIns]
+  · exact absurd rfl hp
+  · obtain ⟨h1, h2, h3⟩ := h rfl
+    simp only at h1 h2 h3
+    subst h1; subst h2
+    rcases stack with _ | ⟨_ | _, rest⟩
+    · constructor <;> cases snl <;> cases hd : cfg.doIndent <;>
+        simp_all [xmlStartElement, xmlEndElement, writeParentTagEnd, shouldIndent, indentToks,
+          hNoAdjFrom_cons, hNoAdjFrom, hLastFrom, hcls, clsOk, Tok.cls, Tok.isTextual, Tok.isIns]
+    · exact absurd rfl h3
+    · constructor <;> cases snl <;> cases hd : cfg.doIndent <;>
+        simp_all [xmlStartElement, xmlEndElement, writeParentTagEnd, shouldIndent, indentToks,
+          hNoAdjFrom_cons, hNoAdjFrom, hLastFrom, hcls, clsOk, Tok.cls, Tok.isTextual, Tok.isIns] <;>
+        (repeat' split) <;>
+        simp_all [hNoAdjFrom_cons, hNoAdjFrom, hLastFrom, hcls, clsOk, Tok.cls, Tok.isTextual, Tok.isIns]
 
 end XalanModel.C08.Html
